@@ -425,6 +425,20 @@ class Interp:
             return  # imported names are resolved by the call hooks
         elif isinstance(st, ast.Delete):
             self.trace.append(("del", U(st), st))
+            for tg in st.targets:
+                if isinstance(tg, ast.Subscript) and not isinstance(tg.slice, ast.Slice):
+                    try:
+                        base, idx = self.ev(tg.value), self.ev(tg.slice)
+                    except AnalysisError:
+                        continue
+                    if isinstance(base, (dict, list)) and not isinstance(idx, Unknown):
+                        try:
+                            del base[idx]
+                        except (KeyError, IndexError) as exc:
+                            if self.strict:
+                                raise Flow("raise", f"{type(exc).__name__}({str(exc)})", st) from None
+                elif isinstance(tg, ast.Name) and tg.id in self.env:
+                    del self.env[tg.id]
         elif isinstance(st, (ast.With, ast.AsyncWith)) and self.loop_hook is not None:
             for item in st.items:
                 ctx = self.ev(item.context_expr)  # the context manager model is its own __enter__ result; __exit__ has no modelled effect
